@@ -178,19 +178,39 @@ fn valid_version(v: &debversion::Version) -> bool {
     up == v.upstream_version && rev == v.debian_revision
 }
 
-/// mirror of `RelSpec.validRS` (the strong variant: a present architecture list is non-empty)
-pub fn valid_r(r: &LRel) -> bool {
+/// mirror of `RelSpec.validR` (the domain of the text clauses: an architecture list may be empty)
+pub fn valid_r_weak(r: &LRel) -> bool {
     is_ident(&r.name)
         && r.archqual.as_ref().map_or(true, |a| is_ident(a))
         && r.version.as_ref().map_or(true, |(_, v)| valid_version(v))
-        && r.architectures.as_ref().map_or(true, |l| {
-            !l.is_empty() && l.iter().all(|a| is_ident(a.strip_prefix('!').unwrap_or(a)))
-        })
+        && r.architectures.as_ref().map_or(true, |l| l.iter().all(|a| is_ident(a.strip_prefix('!').unwrap_or(a))))
         && r.profiles.iter().all(|g| {
             g.iter().all(|p| match p {
                     BuildProfile::Enabled(n) | BuildProfile::Disabled(n) => is_ident(n),
                 })
         })
+}
+
+/// mirror of `RelSpec.validRS` (the strong variant: a present architecture list is non-empty)
+pub fn valid_r(r: &LRel) -> bool {
+    valid_r_weak(r) && r.architectures.as_ref().map_or(true, |l| !l.is_empty())
+}
+
+/// mirror of `Props.C14More.normArchs`: what the lossless form keeps of the value (`Some([])` is `None`)
+fn norm_archs(r: &LRel) -> LRel {
+    let mut x = r.clone();
+    if x.architectures.as_ref().map_or(false, |l| l.is_empty()) {
+        x.architectures = None;
+    }
+    x
+}
+
+/// mirror of `Props.C14More.qualBare` / `noInnerQualBare`
+fn qual_bare(r: &LRel) -> bool {
+    r.version.is_none() && r.architectures.is_none() && r.profiles.is_empty() && r.archqual.is_some()
+}
+fn no_inner_qual_bare(e: &[LRel]) -> bool {
+    e.len() < 2 || e[..e.len() - 1].iter().all(|r| !qual_bare(r))
 }
 
 fn show_ll_rel(r: &Option<ll::Relation>) -> String {
@@ -240,23 +260,63 @@ pub fn handle(op: &str, a: &[&str]) -> Option<Resp> {
             let lv = lossless_view(&printed, false);
             let valid = valid_r(&r);
             let mut fail = None;
-            if valid {
+            // the oracle applies to every value of the text-clause domain (`ValidR`, `Some([])` included);
+            // the conversion clauses are evaluated in their exact form (C14More.C14_convert_exact): the
+            // lossless form is that of `norm_archs(r)`, which is `r` itself on the strong domain
+            if valid_r_weak(&r) {
+                let n = norm_archs(&r);
+                let nprinted = n.to_string();
                 if rt.as_ref().ok() != Some(&r) {
                     fail = Some(format!("lossy::Relation::from_str(r.to_string()) != r: {}", rt_s));
                 } else if lv != lossless_expect(&[vec![r.clone()]]) {
                     fail = Some(format!("lossless reader sees a different structure in r.to_string(): {}", lv));
                 } else {
+                    // C14_lossless_reads_same_rel: the single-relation lossless reader
+                    match guarded(|| ll::Relation::from_str(&printed).map(|t| (t.to_string(), LRel::from(t)))) {
+                        Some(Ok((text, back))) => {
+                            if text != printed {
+                                fail = Some(format!("lossless::Relation::from_str(r.to_string()).to_string() = {:?}", text));
+                            } else if back != r {
+                                fail = Some(format!(
+                                    "lossy::Relation::from(lossless::Relation::from_str(r.to_string())) != r: {}",
+                                    enc_lossy_rel(&back)
+                                ));
+                            }
+                        }
+                        Some(Err(e)) => fail = Some(format!("lossless::Relation::from_str(r.to_string()) fails: {}", e)),
+                        None => fail = Some("lossless::Relation::from_str(r.to_string()) or its accessors panic".to_string()),
+                    }
+                }
+                if fail.is_none() {
                     match &lossless {
                         None => fail = Some("lossless::Relation::from(lossy) panics".to_string()),
                         Some(l) => {
-                            if l.to_string() != printed {
+                            if l.to_string() != nprinted {
                                 fail = Some(format!(
-                                    "lossless::Relation::from(lossy).to_string() = {:?} != lossy.to_string() = {:?}",
+                                    "lossless::Relation::from(lossy).to_string() = {:?} != {:?} (the lossy text, an empty architecture list dropped)",
                                     l.to_string(),
-                                    printed
+                                    nprinted
                                 ));
-                            } else if bk != format!("ok {}", enc_lossy_rel(&r)) {
-                                fail = Some(format!("lossy::Relation::from(lossless::Relation::from(r)) != r: {}", bk));
+                            } else if bk != format!("ok {}", enc_lossy_rel(&n)) {
+                                fail = Some(format!(
+                                    "lossy::Relation::from(lossless::Relation::from(r)) != r (an empty architecture list dropped): {}",
+                                    bk
+                                ));
+                            } else {
+                                // C14_parse_is_built(_norm): the parser returns the builder's tree
+                                match guarded(|| ll::Relation::from_str(&nprinted).map(|t| t.verif_dump())) {
+                                    Some(Ok(d)) => {
+                                        if d != l.verif_dump() {
+                                            fail = Some(format!(
+                                                "lossless::Relation::from_str({:?}) builds {} but Relation::from(lossy) builds {}",
+                                                nprinted,
+                                                d,
+                                                l.verif_dump()
+                                            ));
+                                        }
+                                    }
+                                    _ => fail = Some(format!("lossless::Relation::from_str({:?}) fails", nprinted)),
+                                }
                             }
                         }
                     }
@@ -314,10 +374,15 @@ pub fn handle(op: &str, a: &[&str]) -> Option<Resp> {
             };
             let valid = rs.iter().all(|e| !e.is_empty() && e.iter().all(valid_r));
             let mut fail = None;
-            if valid {
+            // every value whose relations are in the text-clause domain (`ValidR`); entries may be empty.
+            // Exact forms (Props/C14More): the readers return the value without its empty entries, the
+            // converted entries are those of the relations with `Some([])` replaced by `None`.
+            if rs.iter().all(|e| e.iter().all(valid_r_weak)) {
+                let kept: Vec<Vec<LRel>> = rs.iter().filter(|e| !e.is_empty()).cloned().collect();
+                let normed: Vec<Vec<LRel>> = rs.iter().map(|e| e.iter().map(norm_archs).collect()).collect();
                 let want_rt = {
                     let mut s = String::from("ok E[");
-                    for e in &rs {
+                    for e in &kept {
                         s.push('{');
                         s.push_str(&e.iter().map(enc_lossy_rel).collect::<Vec<_>>().join("|"));
                         s.push('}');
@@ -325,12 +390,12 @@ pub fn handle(op: &str, a: &[&str]) -> Option<Resp> {
                     s.push(']');
                     s
                 };
-                if LRels::from_str(&printed).ok().as_ref() != Some(&val) || rt != want_rt {
-                    fail = Some(format!("lossy::Relations::from_str(rs.to_string()) != rs: {}", rt));
-                } else if lv != lossless_expect(&rs) {
+                if LRels::from_str(&printed).ok().as_ref() != Some(&LRels(kept.clone())) || rt != want_rt {
+                    fail = Some(format!("lossy::Relations::from_str(rs.to_string()) != rs (without its empty entries): {}", rt));
+                } else if lv != lossless_expect(&kept) {
                     fail = Some(format!("lossless reader sees a different structure in rs.to_string(): {}", lv));
                 } else {
-                    for (i, e) in rs.iter().enumerate() {
+                    for (i, e) in normed.iter().enumerate() {
                         let want_text = e.iter().map(|r| r.to_string()).collect::<Vec<_>>().join(" | ");
                         match &ents[i] {
                             None => {
@@ -352,11 +417,39 @@ pub fn handle(op: &str, a: &[&str]) -> Option<Resp> {
                                     fail = Some(format!("Vec<lossy::Relation>::from(Entry::from(e)) != e: {}", eb_items[i]));
                                     break;
                                 }
+                                // C14_entry_parse_is_built
+                                if valid && no_inner_qual_bare(e) {
+                                    match guarded(|| ll::Entry::from_str(&want_text).map(|t| t.verif_dump())) {
+                                        Some(Ok(d)) if d == b.verif_dump() => {}
+                                        other => {
+                                            fail = Some(format!(
+                                                "lossless::Entry::from_str({:?}) = {:?} but Entry::from(lossy) builds {}",
+                                                want_text,
+                                                other,
+                                                b.verif_dump()
+                                            ));
+                                            break;
+                                        }
+                                    }
+                                }
                             }
                         }
                     }
-                    if fail.is_none() && rsh != "-" && !rsh.starts_with(&format!("ok {} ", es(&printed))) {
+                    let nprinted = LRels(normed.clone()).to_string();
+                    if fail.is_none() && rsh != "-" && !rsh.starts_with(&format!("ok {} ", es(&nprinted))) {
                         fail = Some(format!("lossless::Relations::from(entries).to_string() != rs.to_string(): {}", rsh));
+                    }
+                    // C14_field_parse_is_built
+                    if fail.is_none() && valid && rs.iter().all(|e| no_inner_qual_bare(e)) {
+                        match guarded(|| ll::Relations::from_str(&printed).map(|t| t.verif_dump())) {
+                            Some(Ok(d)) if rsh == format!("ok {} {}", es(&printed), d) => {}
+                            other => {
+                                fail = Some(format!(
+                                    "lossless::Relations::from_str(rs.to_string()) = {:?} but Relations::from(entries) is {}",
+                                    other, rsh
+                                ))
+                            }
+                        }
                     }
                 }
             }
@@ -630,6 +723,38 @@ pub fn generate_c14(tier: &str, seed: u64, out: &mut Out) {
         out.req("rel.lrels", &[enc_lossy_rels_req(&rs)]);
     }
     out.req("rel.lrels", &["".to_string()]);
+    // 2b. sparse values (Props/C14More): entries without alternatives anywhere, empty architecture lists,
+    //     bare `name:qualifier` alternatives before a `|`
+    let n = if thorough { 30_000 } else { 1_500 };
+    for _ in 0..n {
+        let rs: Vec<Vec<LRel>> = (0..rng.below(5))
+            .map(|_| {
+                if rng.chance(30) {
+                    vec![]
+                } else {
+                    (0..1 + rng.below(3))
+                        .map(|_| {
+                            let mut r = random_rel(&mut rng, false);
+                            if rng.chance(25) {
+                                r.architectures = Some(vec![]);
+                            }
+                            if rng.chance(20) {
+                                r.version = None;
+                                r.architectures = None;
+                                r.profiles = vec![];
+                                r.archqual = Some("any".to_string());
+                            }
+                            r
+                        })
+                        .collect()
+                }
+            })
+            .collect();
+        out.req("rel.lrels", &[enc_lossy_rels_req(&rs)]);
+    }
+    for h in ["()", "();()", "(x61:none:none:none:);();()", "();(x61:none:none:L:);();(x62:x616e79:none:none:|x63:none:none:none:)"] {
+        out.req("rel.lrels", &[h.to_string()]);
+    }
     // 3. values outside the domain (the oracle does not apply; model = code is still compared)
     for bad in [
         LRel { name: "a b".into(), archqual: None, version: None, architectures: None, profiles: vec![] },
